@@ -68,6 +68,9 @@ pub enum Step {
     /// record request with it
     OutgoingEstablishedWith { rec: Rec },
     AnswerFindNode { sel: u16, recs: Vec<Rec> },
+    /// the first of two announced NODES packets arrives for a FINDNODE (a lookup's, or the service's own
+    /// record request), then the request fails: what was received is processed under the same rules
+    PartialThenFail { sel: u16, recs: Vec<Rec> },
     AnswerPing { sel: u16, seq_delta: u8 },
     Fail { sel: u16 },
     AddEnr { rec: Rec },
@@ -384,6 +387,35 @@ async fn run(case: &Case, rep: &mut CaseReport) -> Option<(String, String)> {
                 network_learnt = true;
                 s.inject(HandlerOut::Response(o.contact.node_address(), Box::new(Response { id: o.id.clone(), body: ResponseBody::Nodes { total: 1, nodes } }))).await;
             }
+            Step::PartialThenFail { sel, recs } => {
+                let cands: Vec<usize> = outstanding.iter().enumerate().filter(|(_, o)| matches!(o.body, RequestBody::FindNode { .. })).map(|(i, _)| i).collect();
+                if cands.is_empty() {
+                    continue;
+                }
+                let o = outstanding.remove(cands[(*sel as usize * cands.len()) >> 16]);
+                let RequestBody::FindNode { distances } = &o.body else { unreachable!() };
+                let responder = o.contact.node_id().raw();
+                let mut nodes = Vec::new();
+                if distances == &vec![0] {
+                    if let Some(r) = recs.first() {
+                        if let Some(k) = (KEY_BASE..KEY_BASE + 40).find(|k| keys::id_of(*k) == responder) {
+                            nodes.push(shaped_record(k, r.ver.clamp(1, 5) as u64, r.shape));
+                            rep.class("record-request-answered-partially-then-failed");
+                        }
+                    }
+                } else {
+                    for r in recs {
+                        let e = rec_enr(r);
+                        let d = if e.node_id().raw() == responder { 0 } else { ids::log2(&responder, &e.node_id().raw()) as u64 };
+                        if distances.contains(&d) {
+                            nodes.push(e);
+                        }
+                    }
+                }
+                network_learnt = true;
+                s.inject(HandlerOut::Response(o.contact.node_address(), Box::new(Response { id: o.id.clone(), body: ResponseBody::Nodes { total: 2, nodes } }))).await;
+                s.inject(HandlerOut::RequestFailed(o.id.clone(), RequestError::Timeout)).await;
+            }
             Step::AnswerPing { sel, seq_delta } => {
                 let cands: Vec<usize> = outstanding.iter().enumerate().filter(|(_, o)| matches!(o.body, RequestBody::Ping { .. })).map(|(i, _)| i).collect();
                 if cands.is_empty() {
@@ -456,7 +488,7 @@ async fn run(case: &Case, rep: &mut CaseReport) -> Option<(String, String)> {
             }
             if !filt(enr) {
                 return Some((
-                    format!("admission/entry-fails-table-filter/{}", match step { Step::Incoming { .. } | Step::CompleteIncoming | Step::OutgoingEstablished { .. } | Step::OutgoingEstablishedWith { .. } => "via-session", Step::AnswerFindNode { .. } => "via-nodes", _ => "other" }),
+                    format!("admission/entry-fails-table-filter/{}", match step { Step::Incoming { .. } | Step::CompleteIncoming | Step::OutgoingEstablished { .. } | Step::OutgoingEstablishedWith { .. } => "via-session", Step::AnswerFindNode { .. } | Step::PartialThenFail { .. } => "via-nodes", _ => "other" }),
                     format!("entry {id} does not pass the configured table filter {:?} (after {step:?})", case.filter),
                 ));
             }
@@ -493,7 +525,7 @@ async fn run(case: &Case, rep: &mut CaseReport) -> Option<(String, String)> {
                 if let Some(old) = prev.get(id) {
                     if old != new && new.seq() <= old.seq() {
                         return Some((
-                            format!("update/stored-record-replaced-by-not-newer-one/{}", match step { Step::AnswerFindNode { .. } => "via-nodes", _ => "via-session" }),
+                            format!("update/stored-record-replaced-by-not-newer-one/{}", match step { Step::AnswerFindNode { .. } | Step::PartialThenFail { .. } => "via-nodes", _ => "via-session" }),
                             format!("record of {} (seq {}, udp4 {:?}, udp6 {:?}) was replaced by seq {} (udp4 {:?}, udp6 {:?}) learnt from the network (after {step:?})", hex::encode(&id[..4]), old.seq(), old.udp4_socket(), old.udp6_socket(), new.seq(), new.udp4_socket(), new.udp6_socket()),
                         ));
                     }
@@ -541,6 +573,7 @@ impl Property for C12 {
                 }
                 Step::AnswerFindNode { sel, recs }
             }),
+            2 => (any::<u16>(), proptest::collection::vec(rec_strategy(), 1..4)).prop_map(|(sel, recs)| Step::PartialThenFail { sel, recs }),
             3 => (any::<u16>(), 0u8..3).prop_map(|(sel, seq_delta)| Step::AnswerPing { sel, seq_delta }),
             2 => any::<u16>().prop_map(|sel| Step::Fail { sel }),
             5 => rec_strategy().prop_map(|rec| Step::AddEnr { rec }),
@@ -589,7 +622,16 @@ impl Property for C12 {
                 Step::CompleteIncoming,
             ]
         });
-        let frag = prop_oneof![40 => step.prop_map(|x| vec![x]), 1 => refresh_race, 1 => session_vs_lookup, 1 => session_races_lookup];
+        // a member announces a newer record, the service asks for it, and the answer is an older / equal /
+        // otherwise unacceptable version in the first of two packets - then the request fails
+        let refresh_partial = (0u8..12, 2u8..=4, 0u8..=2, prop_oneof![Just(Shape::V4), Just(Shape::NoAddr), Just(Shape::V6), Just(Shape::V4Marked), Just(Shape::V4OddPort)]).prop_map(|(key, ver, back, shape)| {
+            vec![
+                Step::Incoming { rec: Rec { key, ver, shape: Shape::V4 }, v6: false, matching: true, attach: true },
+                Step::AnswerPing { sel: 65535, seq_delta: 1 },
+                Step::PartialThenFail { sel: 65535, recs: vec![Rec { key, ver: ver.saturating_sub(back).max(1), shape }] },
+            ]
+        });
+        let frag = prop_oneof![40 => step.prop_map(|x| vec![x]), 1 => refresh_race, 1 => session_vs_lookup, 1 => session_races_lookup, 1 => refresh_partial];
         let svc = (
             prop_oneof![3 => Just(Mode::Ip4), 1 => Just(Mode::Ip6), 2 => Just(Mode::Dual)],
             prop_oneof![Just(FilterSel::AcceptAll), Just(FilterSel::NoMarker), Just(FilterSel::EvenPort)],
